@@ -378,6 +378,26 @@ func runC14(c *Case) {
 			} else if !isPre && !isPost {
 				fail("committed-data-lost:"+m.name, fmt.Sprintf("%s: a fresh open after the fault cleared differs from the committed contents: %s", where, firstDiff(preDump, fd)))
 			}
+			// same connection, no refresh: a statement that failed must have left no trace in the
+			// connection's own view (reads: the committed contents; writes: old or new, never a mixture)
+			if c.Res.Status != "violated" && !strings.HasPrefix(target, "open") && target != "refresh" && target != "vacuum" && r.Intn(3) == 0 {
+				d, err := s.conn.Rows("select * from " + s.t)
+				if err == nil {
+					own := firstDiff(preDump, d) == ""
+					ownPost := firstDiff(refPost, d) == ""
+					c.Count("same_connection_views_compared", 1)
+					switch {
+					case !isWrite && !own:
+						fail("same-connection-view-changed:"+m.name, fmt.Sprintf("%s: after the faulted read the connection's own view differs from the committed contents: %s", where, firstDiff(preDump, d)))
+					case isWrite && o.err != nil && !own && !ownPost:
+						fail("failed-write-left-trace:"+m.name, fmt.Sprintf("%s: the statement failed, yet the connection's own view is neither the old nor the new contents: %s", where, firstDiff(preDump, d)))
+					case isWrite && o.err != nil && ownPost && !isPost:
+						fail("failed-write-visible-locally:"+m.name, fmt.Sprintf("%s: the statement failed and a fresh open shows the old contents, but the connection itself shows the new ones", where))
+					case isWrite && o.err == nil && !ownPost:
+						fail("acknowledged-write-not-visible-locally:"+m.name, fmt.Sprintf("%s: the write reported success but the connection's own view differs: %s", where, firstDiff(refPost, d)))
+					}
+				}
+			}
 			// same connection: usable again
 			if c.Res.Status != "violated" && r.Intn(4) == 0 && !strings.HasPrefix(target, "open") {
 				if err := s.conn.Exec("select s3db_refresh('" + s.t + "')"); err != nil {
